@@ -812,7 +812,11 @@ class Entity(Block):
         generic_definitions: dict[str, Any],
     ):
         for name, port in template._info.ports.items():
-            port._assign_(port_definitions[name], AssignMode.NEXT)
+            # check that the connected object can be assigned to the port, a copy of the
+            # value is used because the port object is shared by all instances of the entity
+            _type_qualifier.TypeQualifier.decay(port).copy()._assign(
+                _type_qualifier.TypeQualifier.decay(port_definitions[name])
+            )
 
         super().__init__(template._info, [], [], template._info.attributes)
         self._template = template
